@@ -320,7 +320,9 @@ class Emitter:
                     decls[r] = ct
                     src = self.val(ins.val, ins.fty)
                     k = ins.kind
-                    if k in ('bitcast', 'addrspacecast'): e = '(%s)%s' % (ct, src)
+                    if k == 'bitcast' and isinstance(self.rs(ins.fty), FloatTy) != isinstance(self.rs(ins.tty), FloatTy):
+                        e = 'vf_bits_%s(%s)' % (ct.replace(' ', '_'), src)       # same bits, other interpretation (rt.h)
+                    elif k in ('bitcast', 'addrspacecast'): e = '(%s)%s' % (ct, src)
                     elif k == 'ptrtoint': e = '(%s)(uintptr_t)%s' % (ct, src)
                     elif k == 'inttoptr': e = '(%s)(uintptr_t)%s' % (ct, src)
                     elif k == 'zext': e = '(%s)%s' % (ct, src)
@@ -355,6 +357,19 @@ class Emitter:
                 elif op == 'icmp':
                     decls[r] = 'uint8_t'
                     body.append('  %s = %s;' % (r, self.icmp_expr(ins.pred, ins.ty, self.val(ins.a, ins.ty), self.val(ins.b, ins.ty))))
+                elif op == 'fcmp':
+                    # IEEE comparisons: C's relational operators are the ordered ones (false when either side is NaN)
+                    decls[r] = 'uint8_t'
+                    a, b = self.val(ins.a, ins.ty), self.val(ins.b, ins.ty)
+                    E = {'oeq': '(%s == %s)', 'ogt': '(%s > %s)', 'oge': '(%s >= %s)', 'olt': '(%s < %s)', 'ole': '(%s <= %s)',
+                         'one': '(%s < %s || %s > %s)', 'ord': '(%s == %s && %s == %s)',
+                         'ueq': '!(%s < %s || %s > %s)', 'ugt': '!(%s <= %s)', 'uge': '!(%s < %s)', 'ult': '!(%s >= %s)', 'ule': '!(%s > %s)',
+                         'une': '(%s != %s)', 'uno': '(%s != %s || %s != %s)', 'true': '1', 'false': '0'}[ins.pred]
+                    if ins.pred in ('one', 'ueq'): e = E % (a, b, a, b)
+                    elif ins.pred in ('ord', 'uno'): e = E % (a, a, b, b)
+                    elif ins.pred in ('true', 'false'): e = E
+                    else: e = E % (a, b)
+                    body.append('  %s = (uint8_t)%s;' % (r, e))
                 elif op == 'select':
                     decls[r] = self.cty(ins.ty)
                     body.append('  %s = %s ? %s : %s;' % (r, self.val(ins.c, IntTy(1)), self.val(ins.a, ins.ty), self.val(ins.b, ins.ty)))
